@@ -452,7 +452,17 @@ func (e *Env) ident(name string) (TV, error) {
 	if e.fr != nil {
 		if as := e.fr.allocsByName[name]; len(as) > 0 && e.fr.cellAlloc[as[0]] {
 			typ := derefType(as[0].Type())
-			return TV{e.vc.fresh("dead:"+name, e.vc.sortOf(typ)), typ}, nil
+			// one unconstrained value per name and verified function, so that
+			// two mentions of the same dead local in a clause agree
+			if e.vc.deadLocals == nil {
+				e.vc.deadLocals = map[string]Term{}
+			}
+			t, ok := e.vc.deadLocals[name]
+			if !ok {
+				t = e.vc.fresh("dead:"+name, e.vc.sortOf(typ))
+				e.vc.deadLocals[name] = t
+			}
+			return TV{t, typ}, nil
 		}
 	}
 	// ghost state
